@@ -167,6 +167,51 @@ def _alphabet(keys):
     return [('push', k) for k in keys] + [('pop',), ('peek',), ('dec', 0, 1), ('dec', 1, 2), ('rem', 0), ('rem', 1)]
 
 
+def _helpers_timeout(job, seconds):
+    return [{'what': f"smallest/largest/merge on {job!r} did not finish within {seconds}s", 'class': 'c16-hang', 'input': {'job': list(job)},
+             'replay': None}]
+
+
+def _helpers_job(job):
+    from collections import Counter
+    from graphtage.utils import smallest, largest
+    from graphtage.fibonacci import FibonacciHeap
+    items, n = job
+    fails = []
+
+    def fail(kind, what):
+        fails.append({'what': f"{what} [items={items!r}, n={n}]", 'class': f'c16-{kind}', 'input': {'items': items, 'n': n}, 'replay': None})
+    try:
+        for name, fn, rev in (('smallest', smallest, False), ('largest', largest, True)):
+            for arg in ('list', 'varargs'):
+                if arg == 'varargs' and len(items) < 2:
+                    continue
+                got = list(fn(list(items), n=n)) if arg == 'list' else list(fn(*items, n=n))
+                exp = sorted(items, reverse=rev)[:n]
+                if Counter(got) != Counter(exp):
+                    fail(f'{name}-wrong', f"{name}({'*' if arg == 'varargs' else ''}items, n={n}) yielded {got!r}, the {n} {name} are {exp!r}")
+        # merging two heaps keeps every item and the order
+        k = len(items) // 2
+        h1, h2 = FibonacciHeap(), FibonacciHeap()
+        for x in items[:k]:
+            h1.push(x)
+        for x in items[k:]:
+            h2.push(x)
+        m = h1 + h2
+        out = []
+        guard = 0
+        while m:
+            out.append(m.pop())
+            guard += 1
+            if guard > 100:
+                break
+        if out != sorted(items):
+            fail('merge-wrong', f"popping the merge of two heaps yields {out!r}, expected {sorted(items)!r}")
+    except Exception as ex:
+        fail('helpers-exception:' + type(ex).__name__, f"{type(ex).__name__}: {ex}")
+    return fails
+
+
 def bounded(tier, seed, repo_root):
     L = 5 if tier == 'quick' else 6
     alpha = _alphabet([0, 1, 2])
@@ -193,6 +238,12 @@ def bounded(tier, seed, repo_root):
         jobs.append((kind, seq))
     res = pmap(_run, jobs, repo_root, chunksize=2000)
     fails = [f for fs in res for f in fs]
+    # the helpers built on the two heaps (graphtage.utils.smallest / largest) and heap merging
+    hj = []
+    for _ in range(600 if tier == 'quick' else 6000):
+        n_items = rnd.randint(0, 12)
+        hj.append(([rnd.choice([0, 1, 2, 3, 5, 5, 7, -1]) for _ in range(n_items)], rnd.randint(1, 6)))
+    fails += [f for fs in pmap(_helpers_job, hj, repo_root, chunksize=100, job_timeout=20, on_timeout=_helpers_timeout) for f in fs]
     return [{
         'name': 'C16.lock-step', 'bound': f"all operation sequences over push(0|1|2)/pop/peek/decrease_key/remove up to length {L} "
         f"for the min-heap and (without decrease_key) the max-heap ({exhaustive_n} sequences, exhaustive) + "
